@@ -65,6 +65,9 @@ class ParseTable:
     scrutinee_ok: bool
     try_from: Optional[dict]           # {'delegates': bool, 'error_ty': dict, 'impl': dict}
     all_nodes: Any = None
+    # set by the decision-tree normaliser (symeval): inputs on which the function differs from the table above
+    irregular: List[dict] = field(default_factory=list)
+    via: str = "shape"                 # shape | tree
 
 
 def _fall_through(e: Any) -> FallThrough:
@@ -170,7 +173,158 @@ def _phf_prelude(stmts: List[dict]) -> Tuple[Optional[List[Tuple[str, H.Ctor]]],
     return entries, static_ty
 
 
+def group_fns(g: DeriveGroup) -> Dict[str, dict]:
+    """def path -> fn record of every fn generated by the derive (helpers the normaliser may inline)."""
+    out = {}
+    for it in g.items:
+        if it.get("item") == "impl":
+            for a in it.get("assoc", []):
+                if a.get("kind") == "fn" and a.get("def") and a.get("body"):
+                    out[a["def"]] = a
+        elif it.get("item") == "fn" and it.get("def") and it.get("body"):
+            out[it["def"]] = it
+    return out
+
+
 def parse_table(info: EnumInfo, g: DeriveGroup) -> ParseTable:
+    try:
+        return parse_table_shape(info, g)
+    except Unrecognised as e1:
+        try:
+            return parse_table_tree(info, g)
+        except Unrecognised as e2:
+            raise Unrecognised("%s [decision-tree normaliser: %s]" % (e1, e2), getattr(e1, "node", None))
+
+
+def _try_from(g: DeriveGroup, fns: Optional[Dict[str, dict]] = None) -> Optional[dict]:
+    tfi = g.impls("core::convert::TryFrom")
+    if not tfi:
+        return None
+    ti = tfi[0]
+    tfn = fn_of(ti, "try_from")
+    te = assoc_of(ti, "Error", "type")
+    delegates = False
+    if tfn:
+        _s, t = H.tail_of_body(tfn["body"]["tree"])
+        co = H.call_of(t)
+        if co and not _s and len(co[1]) == 1 and H.is_local(co[1][0], param=0):
+            if co[0].get("def") == FROM_STR or (co[0].get("method") and co[0].get("def") == "core::str::<impl str>::parse"):
+                delegates = True
+    return {"delegates": delegates, "error_ty": te["ty"] if te else None, "impl": ti, "n": len(tfi),
+            "arg_ty": (ti["trait"]["args"][0]["s"] if ti["trait"]["args"] else None)}
+
+
+def classify_parse_leaf(leaf) -> Tuple[str, Any]:
+    """('variant', Ctor) | ('ft', FallThrough) | ('diverge', reason)"""
+    if leaf.diverge:
+        return ("diverge", leaf.diverge)
+    v = leaf.value
+    ft = _fall_through(v)
+    if ft.kind == "default" and not ft.arg_ok and not any(n.get("k") == "local" and n.get("param") == 0 for n in H.walk(v)):
+        ft = FallThrough("other", node=v)       # a constructor with one (defaulted) field, not the catch-all
+    if ft.kind != "other":
+        return ("ft", ft)
+    co = H.call_of(v)
+    if co and co[0].get("def") == OK and len(co[1]) == 1:
+        c = H.ctor_of(co[1][0])
+        if c is not None:
+            return ("variant", c)
+    return ("ft", ft)
+
+
+def _outcome_key(o: Tuple[str, Any]):
+    if o[0] == "variant":
+        return ("variant", o[1].adt, o[1].variant)
+    if o[0] == "ft":
+        f = o[1]
+        return ("ft", f.kind, f.variant, f.field_name, f.fn_def, f.arg_ok)
+    return o
+
+
+def parse_table_tree(info: EnumInfo, g: DeriveGroup) -> ParseTable:
+    """from_str of any shape the normaliser understands -> the equivalent (spelling, mode, constructor) table, plus the
+    inputs (one per cell of the atom partition) on which the function and that table differ."""
+    import symeval as SE
+    impls = g.impls("core::str::traits::FromStr")
+    if len(impls) != 1:
+        raise Unrecognised("expected exactly one FromStr impl, found %d" % len(impls))
+    imp = impls[0]
+    f = fn_of(imp, "from_str")
+    err = assoc_of(imp, "Err", "type")
+    if f is None or err is None:
+        raise Unrecognised("FromStr impl lacks from_str / Err")
+    fns = group_fns(g)
+    fns.pop(f.get("def"), None)
+    b = SE.Builder(f, {0: "str"}, fns)
+    tree = b.tree()
+    ordered = [a for a in b.atoms_in_source_order() if a[0] in ("seq", "sci")]
+    lens = [a for a in SE.atoms(tree) if a[0] == "slen"]
+    arms: List[ParseArm] = []
+    phf_entries: Optional[List[Tuple[str, H.Ctor]]] = [] if b.phf_keys else None
+    for a in ordered:
+        lit = a[1]
+        n = len(lit.encode("utf-8"))
+
+        def truth(x, a=a, n=n):
+            if x == a:
+                return True
+            if x[0] == "slen":
+                return SE._cmp(n, x[1], x[2])
+            return False
+        o = classify_parse_leaf(SE.run_with(tree, truth))
+        if o[0] != "variant":
+            continue        # an atom that only guards a fall-through (the comparison below still covers it)
+        if a[0] == "seq" and lit in b.phf_keys and not any(k == lit for k, _c in (phf_entries or [])):
+            phf_entries.append((lit, o[1]))
+        else:
+            arms.append(ParseArm(lit, "exact" if a[0] == "seq" else "ci", o[1], {"body": o[1].node, "normalised": True}))
+    reps = SE.string_reps(SE.atoms(tree))
+    outcomes = [(kind, s, classify_parse_leaf(SE.run(tree, {"s": s}))) for kind, s in reps]
+    # the fall-through: what the strings that match nothing get (majority; the others are irregular)
+    fts: Dict[Any, list] = {}
+    for kind, s, o in outcomes:
+        if kind.startswith("nomatch"):
+            fts.setdefault(_outcome_key(o), []).append(o)
+    if not fts:
+        raise Unrecognised("no non-matching representative")
+    best = max(fts.values(), key=len)[0]
+    if best[0] == "ft":
+        ft = best[1]
+    else:
+        ft = FallThrough("other", node=(best[1].node if best[0] == "variant" else {"k": "lit", "ty": "str", "v": "<%s>" % (best[1],)}))
+    pt = ParseTable(imp, err["ty"], arms, ft, phf_entries, None, True, _try_from(g), f["body"]["tree"], [], "tree")
+    # the function == the table on every representative?
+    for kind, s, o in outcomes:
+        want: Tuple[str, Any] = ("ft", ft)
+        hit = None
+        if phf_entries:
+            for k, c in phf_entries:
+                if k == s:
+                    hit = c
+                    break
+        if hit is None:
+            for a_ in arms:
+                if (a_.mode == "exact" and a_.lit == s) or (a_.mode == "ci" and SE.ascii_fold(a_.lit) == SE.ascii_fold(s)):
+                    hit = a_.ctor
+                    break
+        if hit is not None:
+            want = ("variant", hit)
+        if _outcome_key(want) != _outcome_key(o):
+            pt.irregular.append({"input": s, "class": kind, "function": _describe(o), "table": _describe(want), "expected_kind": want[0] if want[0] == "variant" else want[1].kind,
+                                 "got_kind": o[0] if o[0] != "ft" else o[1].kind})
+    return pt
+
+
+def _describe(o) -> str:
+    if o[0] == "variant":
+        return "Ok(%s)" % o[1].variant
+    if o[0] == "ft":
+        return {"default": "the default variant", "notfound": "Err(VariantNotFound)", "custom": "Err(custom)", "other": "something else"}.get(o[1].kind, o[1].kind) + \
+            ("" if o[1].kind != "other" else ": " + H.brief(o[1].node, 80))
+    return "%s (%s)" % (o[0], o[1])
+
+
+def parse_table_shape(info: EnumInfo, g: DeriveGroup) -> ParseTable:
     impls = g.impls("core::str::traits::FromStr")
     if len(impls) != 1:
         raise Unrecognised("expected exactly one FromStr impl, found %d" % len(impls))
@@ -306,7 +460,62 @@ def _bindings_of(vp: H.VPat) -> Dict[int, Tuple[Any, dict]]:
 
 
 def name_table(imp: dict, fn_name: str, wrap_defs: Tuple[str, ...], self_param: int = 0, fmt_param: Optional[int] = None,
-               siblings: Optional[Dict[str, dict]] = None) -> NameTable:
+               siblings: Optional[Dict[str, dict]] = None, fns: Optional[Dict[str, dict]] = None) -> NameTable:
+    try:
+        return name_table_shape(imp, fn_name, wrap_defs, self_param, fmt_param, siblings)
+    except Unrecognised as e1:
+        try:
+            return name_table_tree(imp, fn_name, wrap_defs, self_param, fmt_param, fns)
+        except Unrecognised as e2:
+            raise Unrecognised("%s [decision-tree normaliser: %s]" % (e1, e2), getattr(e1, "node", None))
+
+
+def _variant_tree(f: dict, self_param: int, fns: Optional[Dict[str, dict]]):
+    """Decision tree of a function of `self` only: (builder, tree, [variant names in source order])."""
+    import symeval as SE
+    fns2 = dict(fns or {})
+    fns2.pop(f.get("def"), None)
+    b = SE.Builder(f, {self_param: "self"}, fns2)
+    tree = b.tree()
+    ats = b.atoms_in_source_order()
+    bad = [a for a in SE.atoms(tree) if a[0] != "var"]
+    if bad:
+        raise Unrecognised("%s branches on something other than the variant of self: %r" % (f["name"], bad[0]))
+    return b, tree, [a[1] for a in ats if a[0] == "var"]
+
+
+def _vpat_for(leaf, variant: str) -> H.VPat:
+    for vp in reversed(leaf.vpats):
+        if vp.variant == variant:
+            return vp
+    raise Unrecognised("no pattern for variant %s on the path to its result" % variant)
+
+
+def name_table_tree(imp: dict, fn_name: str, wrap_defs, self_param, fmt_param, fns) -> NameTable:
+    import symeval as SE
+    f = fn_of(imp, fn_name)
+    if f is None:
+        raise Unrecognised("impl lacks fn " + fn_name)
+    b, tree, variants = _variant_tree(f, self_param, fns)
+    arms: List[NameArm] = []
+    for vn in variants:
+        leaf = SE.run(tree, {"variant": vn})
+        vp = _vpat_for(leaf, vn)
+        body = leaf.value if leaf.value is not None else {"k": "macro", "name": "panic", "never": True, "e": None}
+        arms.append(_name_arm(vp, body, wrap_defs, fmt_param, {"pat": vp.node, "body": body, "normalised": True}))
+    other = SE.run(tree, {"variant": None})
+    has_panic = False
+    if other.diverge:
+        has_panic = other.diverge != "no arm matches"
+    else:
+        raise Unrecognised("%s: a variant without an arm of its own does not reach a panic: %s" % (fn_name, H.brief(other.value, 80)))
+    t = NameTable(imp, fn_name, arms, has_panic, True)
+    t.via = "tree"
+    return t
+
+
+def name_table_shape(imp: dict, fn_name: str, wrap_defs: Tuple[str, ...], self_param: int = 0, fmt_param: Optional[int] = None,
+                     siblings: Optional[Dict[str, dict]] = None) -> NameTable:
     """Recognise `match <self> { E::V.. => <name expr>, .., [_ => panic] }`.
 
     <name expr> ::= "lit" | W("lit"[, f]) | W(binding[, f]) | W(&format_args!(..)|&format!(..), f) with W in wrap_defs."""
@@ -402,7 +611,35 @@ class VMatch:
     stmts: List[dict]
 
 
-def variant_match(fn: dict, self_param: int = 0, allow_stmts: bool = False) -> VMatch:
+def variant_match(fn: dict, self_param: int = 0, allow_stmts: bool = False, fns: Optional[Dict[str, dict]] = None) -> VMatch:
+    try:
+        return variant_match_shape(fn, self_param, allow_stmts)
+    except Unrecognised as e1:
+        if allow_stmts:
+            raise
+        try:
+            return variant_match_tree(fn, self_param, fns)
+        except Unrecognised as e2:
+            raise Unrecognised("%s [decision-tree normaliser: %s]" % (e1, e2), getattr(e1, "node", None))
+
+
+def variant_match_tree(fn: dict, self_param: int, fns) -> VMatch:
+    import symeval as SE
+    b, tree, variants = _variant_tree(fn, self_param, fns)
+    arms = []
+    for vn in variants:
+        leaf = SE.run(tree, {"variant": vn})
+        body = leaf.value if leaf.value is not None else {"k": "macro", "name": "panic", "never": True, "e": None}
+        vp = _vpat_for(leaf, vn)
+        arms.append((vp, body, {"pat": vp.node, "body": body, "normalised": True}))
+    other = SE.run(tree, {"variant": None})
+    wild = None
+    if not (other.diverge == "no arm matches"):
+        wild = other.value if other.value is not None else {"k": "macro", "name": "panic", "never": True, "e": None}
+    return VMatch(arms, wild, True, [])
+
+
+def variant_match_shape(fn: dict, self_param: int = 0, allow_stmts: bool = False) -> VMatch:
     stmts, tail = H.tail_of_body(fn["body"]["tree"])
     if stmts and not allow_stmts:
         raise Unrecognised("unexpected statements in " + fn["name"], stmts)
@@ -483,11 +720,48 @@ def static_str_array(e: Any):
     return None
 
 
+def array_behind(e: Any) -> Optional[dict]:
+    """The array literal an expression denotes: `&[..]`, `[..]`, `{ const/static N: [T; n] = [..]; &N }`, a path to such a
+    nested item (constant folding of item references only)."""
+    items: Dict[str, dict] = {}
+    for _ in range(6):
+        e = H.strip(e)
+        if not isinstance(e, dict):
+            return None
+        k = e.get("k")
+        if k == "block":
+            for s_ in e["stmts"]:
+                if s_.get("k") != "item":
+                    return None
+                if s_.get("item") in ("const", "static") and s_.get("body"):
+                    items[s_["name"]] = s_
+            e = e.get("tail")
+            continue
+        if k in ("ref", "cast"):
+            e = e["e"]
+            continue
+        if k == "path" and str(e.get("dk", "")).startswith(("Const", "Static")):
+            it = items.get((e.get("written") or "").split("::")[-1])
+            if it is None:
+                return None
+            e = it["body"]["tree"]
+            continue
+        if k == "array":
+            return e
+        return None
+    return None
+
+
 def const_str_slice(imp: dict, name: str) -> List[str]:
     c = assoc_of(imp, name, "const")
     if c is None or "body" not in c:
         raise Unrecognised("impl lacks const " + name)
     t = H.strip(c["body"]["tree"])
+    arr = array_behind(t)
+    if arr is not None and not (isinstance(t, dict) and t.get("k") == "ref" and isinstance(H.strip(t["e"]), dict) and H.strip(t["e"]).get("k") == "array"):
+        vals = [H.lit_value(x, "str") for x in arr["elems"]]
+        if all(v is not None for v in vals):
+            return vals
     if isinstance(t, dict) and t.get("k") == "ref":
         a = H.strip(t["e"])
         if isinstance(a, dict) and a.get("k") == "array":
@@ -502,6 +776,11 @@ def const_ctor_slice(imp: dict, name: str) -> List[H.Ctor]:
     if c is None or "body" not in c:
         raise Unrecognised("impl lacks const " + name)
     t = H.strip(c["body"]["tree"])
+    a = array_behind(t)
+    if a is not None:
+        cs = [H.ctor_of(x) for x in a["elems"]]
+        if all(x is not None for x in cs):
+            return cs
     if isinstance(t, dict) and t.get("k") == "ref":
         a = H.strip(t["e"])
         if isinstance(a, dict) and a.get("k") == "array":
@@ -509,3 +788,40 @@ def const_ctor_slice(imp: dict, name: str) -> List[H.Ctor]:
             if all(x is not None for x in cs):
                 return cs
     raise Unrecognised("const %s is not a slice of unit constructors: %s" % (name, H.brief(t)), t)
+
+
+# ------------------------------------------------------------------------------------------------
+# functions of one integer (index tables, from_repr) through the decision-tree normaliser
+# ------------------------------------------------------------------------------------------------
+
+def int_table_tree(fn: dict, int_param: int, fns: Optional[Dict[str, dict]] = None, extra: List[int] = (), lo: Optional[int] = None, hi: Optional[int] = None):
+    """-> (rows, others): rows = [(k, value)] for every constant k the function compares its parameter with (source order),
+    others = [(n, value)] for one representative n of every other cell of the partition the comparisons induce."""
+    import symeval as SE
+    fns2 = dict(fns or {})
+    fns2.pop(fn.get("def"), None)
+    b = SE.Builder(fn, {int_param: "int"}, fns2)
+    tree = b.tree()
+    ats = SE.atoms(tree)
+    bad = [a for a in ats if a[0] != "int"]
+    if bad:
+        raise Unrecognised("%s branches on something other than its integer parameter: %r" % (fn["name"], bad[0]))
+    keys = []
+    for a in b.atoms_in_source_order():
+        if a[0] == "int" and a[1] == "==" and a[2] not in keys:
+            keys.append(a[2])
+    rows = []
+    for k in keys:
+        leaf = SE.run(tree, {"int": k})
+        if leaf.diverge:
+            raise Unrecognised("%s(%d) does not return: %s" % (fn["name"], k, leaf.diverge))
+        rows.append((k, leaf.value))
+    others = []
+    for n in SE.int_reps(ats, extra, lo, hi):
+        if n in keys:
+            continue
+        leaf = SE.run(tree, {"int": n})
+        if leaf.diverge:
+            raise Unrecognised("%s(%d) does not return: %s" % (fn["name"], n, leaf.diverge))
+        others.append((n, leaf.value))
+    return rows, others
